@@ -9,7 +9,7 @@
    operands are snapshotted before/after every call and the package-level tables and constants are
    snapshotted through the verif hook before/after whole histories of calls. *)
 From Coq Require Import ZArith Bool List.
-From Apd Require Import Generated.Consts Model.Base Model.NumDigits Model.Decimal Model.Context Imp.Mem Imp.Ops Imp.AliasProofs Imp.CtxOps Imp.CtxProofs.
+From Apd Require Import Generated.Consts Model.Base Model.NumDigits Model.Decimal Model.Context Imp.Mem Imp.Ops Imp.AliasProofs Imp.CtxOps Imp.CtxProofs Imp.CtxMulProofs.
 Open Scope Z_scope.
 
 Theorem C06_set_writes_destination_only d x : wr_within (only_obj d) (set_imp d x).
@@ -42,6 +42,11 @@ Theorem C06_context_methods_read_their_arguments_only est c sub d x y :
   rd_within (only_objs [d; x]) (ctx_neg_imp est c d x) /\ rd_within (only_objs [d; x]) (ctx_round_imp est c d x).
 Proof. exact (conj (add_imp_reads est c sub d x y) (conj (ctx_abs_imp_reads est c d x) (conj (ctx_neg_imp_reads est c d x) (ctx_round_imp_reads est c d x)))). Qed.
 Print Assumptions C06_context_methods_read_their_arguments_only.
+
+Theorem C06_context_mul_footprint est c d x y :
+  wr_within (only_obj d) (mul_imp est c d x y) /\ rd_within (only_objs [d; x; y]) (mul_imp est c d x y).
+Proof. exact (conj (mul_imp_ww est c d x y) (mul_imp_reads est c d x y)). Qed.
+Print Assumptions C06_context_mul_footprint.
 
 (* independence of the destination's previous contents and preservation of the others, as one statement
    (from C05_modf): two initial memories that agree on the receiver give the same outputs *)
